@@ -234,6 +234,12 @@ def run(ctx):
                 return sc["out"] == "error"
             st = storelib.StoreRun(ctx, name, dict(over, EmitSel=('"all"' if name.endswith("-x") else '"error"')),  sample=sample, select=sel).run(pool, storelib.default_violation(ctx), cov)
             kinds[name] = st["replayed"]
+        # code -> spec: seeded runs at production capacities in which refused INSERTs have up to 320 rows with the invalid one
+        # anywhere (a statement must be refused as a whole however long it is), with restarts in between
+        seeds = [ctx.seed * 1000 + 300 + i for i in range(4 if ctx.quick() else 12)]
+        agg = storelib.random_runs(ctx, pool, cov, [dict(seed=sd, n=(300 if ctx.quick() else 700), caps=([] if i % 2 == 0 else [4, 4]), cache=0, pcrash=0.04, pflush=0.1,
+                                                         wal=False, maxrows=8, longbad=320) for i, sd in enumerate(seeds)])
+        cov["long_run_statements"] = agg["statements"]
         if not ctx.quick():
             storelib.design_only(ctx, "big", dict(BadMode='"all"', MaxStmts=5, MaxRows=3, MaxFlush=1, Tables='{"t1"}', Vals="{1, 9}", Wheres="{0, 1, 101}"), cov, timeout=300)
     finally:
